@@ -3,6 +3,34 @@ import itertools, re, random
 from runner import Prop
 from common import Stream, decode_runes, encode_runes, HARNESS, run_lines, Broken
 from e2eprops import E2EProp, fam_cases, ALLFAM, nontrivial
+
+
+def spanning_cases(fm, tier):
+    """inline markup of two different elements (plain .Bm and a declared tag) nested and kept open across what ends a
+    paragraph: the closing and reopening orders matter only when the elements differ"""
+    pre = ".X mtag -f xhtml,epub -t s -c strong\n.X mtag -f latex -t s -c textbf\n.X mtag -f mom,markdown -t s -b < -e >\n"
+    alpha = [".Bm", ".Bm -t s", ".Em", ".P", "t", ".D", ".Bl -t verse", ".It l"]
+    n = 4 if tier == "quick" else 5
+    out = [e2e.case_of(fm, pre + e2e.doc_of(list(s))) for k in range(2, n + 1) for s in itertools.product(alpha, repeat=k)
+           if ".Bm" in s and ".Bm -t s" in s]
+    # the same, closed: quiet documents
+    mid = ["t", ".P", ".D", ".P T", ".It l", ".Sm w"]
+    for opens in ([".Bm", ".Bm -t s"], [".Bm -t s", ".Bm"], [".Bm", "a", ".Bm -t s"], [".Bm -t s", ".Bm", ".Bm -t s"]):
+        for k in range(1, (3 if tier == "quick" else 4) + 1):
+            for m in itertools.product(mid, repeat=k):
+                closes = [".Em"] * sum(1 for x in opens if x.startswith(".Bm"))
+                for wrap in (None, "verse", "list"):
+                    body = opens + list(m) + closes + ["z"]
+                    if wrap == "verse":
+                        body = [".Bl -t verse", ".It f"] + body[:-1] + [".El"]
+                    elif wrap == "list":
+                        if k > 2:
+                            continue
+                        body = [".Bl", ".It f"] + body[:-1] + [".El"]
+                    elif ".It l" in m:
+                        continue
+                    out.append(e2e.case_of(fm, pre + e2e.doc_of(body)))
+    return out
 import e2e, gen, oracles
 
 Q = "quick"
@@ -165,6 +193,7 @@ class C04(E2EProp):
         pos = [e2e.case_of("l0", d) for d in position_docs(TEX_SPECIALS, T(tier, 1, 2))] + [e2e.case_of("l0", d) for d in position_docs(["a%_b", "x#y", "50%_off", "{}", "\\e\\e"], 1)]
         return [("S-e2e-latex", fam_cases("l0", ALLFAM, T(tier, 3, 4), rng, 2, T(tier, 1500, 20000)), "LaTeX fragments: all sequences <= %d over 10 family alphabets, skeletons, random" % T(tier, 3, 4)),
                 ("S-e2e-latex-config", config_cases(["l0"]), "images with special names, raw parameters and header ids (D29-D33 class), LaTeX"),
+                ("S-e2e-latex-spanning", spanning_cases("l0", tier), "two kinds of inline markup nested and open across paragraph breaks, dialogue lines and verse items: all sequences <= %d over 8 lines" % T(tier, 4, 5)),
                 ("S-e2e-latex-positions", pos, "TeX-special strings <= %d in %d text-bearing positions (text, titles, items, cells, captions, labels, ids, urls: path, query and fragment)" % (T(tier, 1, 2), len(TEXT_POSITIONS)))]
 
     def standalone_stream(self, tier, rng):
@@ -415,6 +444,7 @@ class C02(E2EProp):
 
     def plan(self, tier, rng):
         out = [("S-e2e-x0", fam_cases("x0", ALLFAM, T(tier, 3, 4), rng, T(tier, 2, 3), T(tier, 1500, 20000)), "XHTML fragments: family sequences, skeletons, random")]
+        out.append(("S-e2e-spanning", spanning_cases("x0", tier) + spanning_cases("x1", tier)[:: 5], "two kinds of inline markup nested and open across paragraph breaks, dialogue lines and verse items: all sequences <= %d over 8 lines" % T(tier, 4, 5)))
         for fm in ("x1", "x2", "e3"):
             out.append(("S-e2e-" + fm, fam_cases(fm, ["head", "misc", "title"], 2, rng, None, T(tier, 300, 4000)), "mode %s" % fm))
         out.append(("S-e2e-config", config_cases(["x0", "x1", "x2"], docs=CONFIG_IN) + config_cases(["e3"], ".X set document-title T\n.X set epub-uuid u\n.Ch A\n", docs=CONFIG_IN),
